@@ -228,7 +228,9 @@ func (t *Template) execute(ctx context.Context, wr io.Writer, data interface{}, 
 			)
 		}
 	case reflect.Map:
-		for _, k := range value.MapKeys() {
+		// in key order, not in Go's random map order: two keys that differ only in the case of their first letter ("Foo",
+		// "foo") both define $foo, and which one a template sees must not change from render to render
+		for _, k := range sortKeys(value.MapKeys()) {
 			if k.Kind() == reflect.Interface {
 				k = k.Elem()
 			}
